@@ -175,6 +175,7 @@ def run_op(res: Result, op, dimA, dimB, tier, mode):
     for k, (sa, sb) in enumerate(sigs):
         rows_a, rows_b = C03.operand_rows(op, dimA, dimB, sa, sb, tier)
         if len(rows_a) < 6:
+            res.count("signatures_skipped_too_few_representable_operands")
             continue
         rows_a = rows_a[:6]
         rows_b = rows_b[:6] if rows_b else None
